@@ -505,11 +505,11 @@ harness_run(void)
         vh_unit("lengths", i, u_lengths, NULL);
     for (uint64_t i = 0; i < 28; i++)
         vh_unit("reads", i, u_reads, NULL);
-    for (uint64_t i = 0; i < (vh_tier ? 2000u : 100u); i++)
+    for (uint64_t i = 0; i < (vh_tier ? 8000u : 100u); i++)
         vh_unit("allocfail", i, u_allocfail, NULL);
-    for (uint64_t i = 0; i < (vh_tier ? 800u : 60u); i++)
+    for (uint64_t i = 0; i < (vh_tier ? 3000u : 60u); i++)
         vh_unit("chanerr", i, u_chanerr, NULL);
-    for (uint64_t i = 0; i < (vh_tier ? 60000u : 2500u); i++)
+    for (uint64_t i = 0; i < (vh_tier ? 200000u : 2500u); i++)
         vh_unit("stream", i, u_stream, NULL);
     static const char *req[] = { "frame larger than the receive block", "empty frame", "frame shorter than a header",
                                  "frame that just fits is executed", "read that cannot fit", "read that fits",
